@@ -526,6 +526,11 @@ def builtin(ev, name, args, kwargs, lineno, env):
 def _isinstance(x, t):
     ts = t if isinstance(t, tuple) else (t,)
     for tt in ts:
+        if isinstance(tt, E.S.ClassRef) and isinstance(x, E.Obj) and x.cls is not None:
+            from .classes import mro
+            if tt.name in [c.name for c in mro(x.cls)]:
+                return True
+            continue
         nm = tt.name if hasattr(tt, "name") else str(tt)
         nm = nm.split(".")[-1]
         if nm in ("ndarray",) and (is_array(x) or isinstance(x, Pit)):
